@@ -252,7 +252,8 @@ Replace(k, c) ==
 Targets == {[kind |-> "none"]} \cup {[kind |-> "file", c |-> c] : c \in Contents}
               \cup {[kind |-> "tree", listing |-> l] : l \in UNION {[S -> Contents] : S \in SUBSET Keys}}
 Next ==
-    \/ \E t \in Targets, f \in BOOLEAN, r \in BOOLEAN, p \in Prompts, st \in BOOLEAN, sp \in {"plain", "slash"} : Begin(t, f, r, p, st, sp)
+    \* (the spelling changes nothing in the design - it is a parameter for the traces; exploring both would only double the states)
+    \/ \E t \in Targets, f \in BOOLEAN, r \in BOOLEAN, p \in Prompts, st \in BOOLEAN : Begin(t, f, r, p, st, "plain")
     \/ \E k \in AllKeys : RemoveDel(k) \/ PromptDel(k) \/ RemoveNew(k) \/ PromptNew(k) \/ Create(k) \/ CreateDangling(k)
     \/ End \/ Crash \/ EndDoomed
     \/ \E c \in Contents : Evict(c) \/ Corrupt(c) \/ Arrive(c)
